@@ -237,7 +237,7 @@ def _work(task):
         nt = bool(nontrivial(beh))
         bad = [m for m in mm if m['cat'] in cats]
         r = {'mm': [dict(m) for m in mm], 'sig': hashlib.sha1(repr(beh_signature(beh)).encode()).hexdigest()[:16],
-             'nt': nt, 'kinds': kinds, 'len': len(beh)}
+             'nt': nt, 'kinds': kinds, 'len': len(beh), 'last': beh[-1]['ev']['kind'], 'from_graph': graph is not None}
         if bad or (n_item < 2 and nt and len(beh) > 4):
             r['summary'] = ev_summary(beh)
         if bad:
@@ -431,6 +431,11 @@ class RecorderCheck(object):
             rep.nontrivial.add(r['sig'])
         for k, n in r['kinds'].items():
             rep.count_action(k, n)
+        if r.get('from_graph') and r.get('last') in ('enter', 'in', 'out', 'opend', 'playstart', 'pin', 'pout', 'popend'):
+            # a complete path of the graph that stops in the middle of a run: the generating config deadlocks there (e.g. no
+            # admissible draw for the finalisation), the run was never finished - a misconfiguration, not a verdict
+            raise tlc.TLCError('generating config %s ends behaviours in the middle of a run (last event %s)'
+                               % (cfg_name, r['last']))
         mm = r['mm']
         if len(rep.samples) < 3 and 'summary' in r and r['nt']:
             rep.sample({'config': cfg_name, 'cassette': cassette, 'behaviour': r['summary']})
